@@ -22,6 +22,14 @@ What is read (anything that does not have the expected shape is a broken tie):
  * network.cpp  LocalNetwork::revision_points: after `b.set_unused_xy()` / `b.set_unused_z()` the
    `removed((*bod).first, rm_…)` call (the reason code, or none when the call is gone)
  * network.h    `enum rm_points {…}` order (the numeric codes), `removed()` pushes id and code
+ * network.cpp  LocalNetwork::revision_observations: the whole skeleton (LocalRevision over all
+   observations, the StandPoint loop, Cluster::update, the revised/removed lists, pocmer_) with two
+   holes: (1) the statement executed for every `const Direction* d` of `sp->observation_list`
+   (the loop that counts targets), parsed into a little statement language (conditions
+   d->active(), targets.find(d->to()) ==/!= targets.end() directly or through a declared iterator,
+   targets.insert(d->to()).second, !, &&, ||; statements active_directions++, targets.insert(d->to()),
+   iterator declaration, if/else, blocks) -> `Gen.targetsBody`; (2) the test
+   `if (active_directions <op> N)` that silences the set -> `Gen.standCmp`, `Gen.standBound`
 """
 import re
 from pathlib import Path
@@ -385,6 +393,163 @@ def revision_points_codes(repo):
     return codes
 
 
+# ------------------------------------------------------------------ revision_observations: the StandPoint loop
+
+class _S:
+    """prefix parser on a white-space free string"""
+    def __init__(self, s):
+        self.s, self.i = s, 0
+
+    def at(self, lit_):
+        return self.s.startswith(lit_, self.i)
+
+    def eat(self, lit_):
+        if not self.at(lit_):
+            raise Unparsable(f"revision_observations: target loop: expected `{lit_}` at `{self.s[self.i:self.i + 60]}`")
+        self.i += len(lit_)
+
+    def opt(self, lit_):
+        if self.at(lit_):
+            self.i += len(lit_)
+            return True
+        return False
+
+    def ident(self):
+        m = re.match(r"[A-Za-z_]\w*", self.s[self.i:])
+        if not m:
+            raise Unparsable(f"revision_observations: target loop: identifier expected at `{self.s[self.i:self.i + 40]}`")
+        self.i += m.end()
+        return m.group(0)
+
+
+_TO = "d->to()"
+
+
+def _cond_atom(p, iters):
+    if p.opt("!"):
+        return f"(.not {_cond_atom(p, iters)})"
+    if p.opt("("):
+        c = _cond(p, iters)
+        p.eat(")")
+        return c
+    if p.opt("d->active()"):
+        return ".active"
+    if p.opt(f"targets.insert({_TO}).second"):
+        return ".insertedNew"
+    if p.opt(f"targets.find({_TO})"):
+        if p.opt("==targets.end()"):
+            return "(.not .found)"
+        p.eat("!=targets.end()")
+        return ".found"
+    if p.opt("targets.end()"):
+        eq = p.opt("==")
+        if not eq:
+            p.eat("!=")
+        if p.opt(f"targets.find({_TO})"):
+            return "(.not .found)" if eq else ".found"
+        v = p.ident()
+        if v not in iters:
+            raise Unparsable(f"revision_observations: target loop: unknown iterator {v}")
+        return "(.not .itFound)" if eq else ".itFound"
+    if p.opt(f"targets.count({_TO})"):
+        if p.opt("==0"):
+            return "(.not .found)"
+        p.opt("!=0") or p.opt(">0")
+        return ".found"
+    v = p.ident()
+    if v not in iters:
+        raise Unparsable(f"revision_observations: target loop: unknown identifier {v} in a condition")
+    if p.opt("==targets.end()"):
+        return "(.not .itFound)"
+    p.eat("!=targets.end()")
+    return ".itFound"
+
+
+def _cond_and(p, iters):
+    l = _cond_atom(p, iters)
+    while p.opt("&&"):
+        l = f"(.and {l} {_cond_atom(p, iters)})"
+    return l
+
+
+def _cond(p, iters):
+    l = _cond_and(p, iters)
+    while p.opt("||"):
+        l = f"(.or {l} {_cond_and(p, iters)})"
+    return l
+
+
+def _stmt(p, iters):
+    if p.opt("{"):
+        out = []
+        while not p.opt("}"):
+            out.append(_stmt(p, iters))
+        if not out:
+            return ".skip"
+        t = out[-1]
+        for x in reversed(out[:-1]):
+            t = f"(.seq {x} {t})"
+        return t
+    if p.opt("if("):
+        c = _cond(p, iters)
+        p.eat(")")
+        t = _stmt(p, iters)
+        e = ".skip"
+        if p.opt("else"):            # (white space is gone; no statement of this language starts with `else…`)
+            e = _stmt(p, iters)
+        return f"(.ite {c} {t} {e})"
+    if p.opt("active_directions++;") or p.opt("++active_directions;") or p.opt("active_directions+=1;"):
+        return ".inc"
+    if p.opt(f"targets.insert({_TO});"):
+        return ".insert"
+    if p.opt("std::set<PointID>::const_iterator") or p.opt("std::set<PointID>::iterator") or p.opt("auto"):
+        v = p.ident()
+        p.eat(f"=targets.find({_TO});")
+        if iters:
+            raise Unparsable("revision_observations: target loop: more than one iterator variable")
+        iters.add(v)
+        return ".declFind"
+    if p.opt(";"):
+        return ".skip"
+    raise Unparsable(f"revision_observations: target loop: statement not understood `{p.s[p.i:p.i + 80]}`")
+
+
+def stand_rule(repo):
+    """(Lean term of the loop body, comparison constructor, bound)"""
+    src = strip_cxx_comments((repo / "lib/gnu_gama/local/network.cpp").read_text())
+    body, _ = body_of(src, r"void\s+LocalNetwork::revision_observations\s*\(\s*\)\s*\{", "revision_observations")
+    nb = norm(body)
+    head = ("if(!tst_redbod_)revision_points();{LocalRevisionlocal_rev(PD);for(ObservationData::iteratori=OD.begin(),e=OD.end();"
+            "i!=e;++i){Observation*m=*i;m->accept(&local_rev);}}ClusterList&clusters=OD.clusters;"
+            "for(ClusterList::iteratorcit=clusters.begin();cit!=clusters.end();++cit){"
+            "if(StandPoint*sp=dynamic_cast<StandPoint*>(*cit)){std::set<PointID>targets;intactive_directions=0;"
+            "for(ObservationList::iteratori=sp->observation_list.begin();i!=sp->observation_list.end();++i){"
+            "if(constDirection*d=dynamic_cast<constDirection*>(*i))")
+    if not nb.startswith(head):
+        k = next((j for j in range(min(len(nb), len(head))) if nb[j] != head[j]), min(len(nb), len(head)))
+        raise Unparsable("revision_observations: shape changed before the target loop at `" + nb[max(0, k - 30):k + 60] + "`")
+    p = _S(nb)
+    p.i = len(head)
+    term = _stmt(p, set())
+    p.eat("}")                       # end of the for loop over sp->observation_list
+    m = re.match(r"if\(active_directions(<=|>=|==|!=|<|>)(\d+)\)", nb[p.i:])
+    if not m:
+        raise Unparsable("revision_observations: test of active_directions not understood `" + nb[p.i:p.i + 60] + "`")
+    p.i += m.end()
+    tail = ("{for(ObservationList::iteratori=sp->observation_list.begin();i!=sp->observation_list.end();++i)"
+            "if(Direction*d=dynamic_cast<Direction*>(*i))d->set_passive();}}(*cit)->update();}"
+            "revised_obs_.clear();removed_obs_.clear();"
+            "for(ObservationData::iteratori=OD.begin(),e=OD.end();i!=e;++i){Observation*m=*i;"
+            "if(m->active())revised_obs_.push_back(m);elseremoved_obs_.push_back(m);}"
+            "pocmer_=revised_obs_.size();tst_redmer_=true;update(Residuals);")
+    if nb[p.i:] != tail:
+        rest = nb[p.i:]
+        k = next((j for j in range(min(len(rest), len(tail))) if rest[j] != tail[j]), min(len(rest), len(tail)))
+        raise Unparsable("revision_observations: shape changed after the target loop at `" + rest[max(0, k - 30):k + 60] + "`")
+    cmp_ = {"<": "lt", "<=": "le", ">": "gt", ">=": "ge", "==": "eq", "!=": "ne"}[m.group(1)]
+    return term, cmp_, int(m.group(2))
+
+
 def lean_list(xs):
     return "[" + ", ".join(xs) + "]"
 
@@ -394,11 +559,12 @@ def generate(repo):
     table = revision_table(repo)
     d0_term, visits, cmp_, vec = abs_term_visitor(repo)
     codes = revision_points_codes(repo)
+    body_term, stand_cmp, stand_bound = stand_rule(repo)
     o = []
     o.append("""/-
   GENERATED by tools/gen/c14_revision.py from lib/gnu_gama/local/local_revision.{h,cpp},
   lib/gnu_gama/local/network.{h,cpp} (TestAbsTermVisitor, test_abs_term, remove_huge_abs_terms,
-  revision_points) and lib/gnu_gama/local/float.h on every run of the C14 check.  Do not edit.
+  revision_points, revision_observations) and lib/gnu_gama/local/float.h on every run of the C14 check.  Do not edit.
 -/
 import Gama.Model.ReviseTypes
 namespace Gama.Rev.Gen
@@ -436,6 +602,14 @@ def absD0 (stanHasXY cilHasXY : Bool) (c : AbsCtx K) : K :=
              "    `set_unused_xy()` / `set_unused_z()` (`none`: nothing is recorded there) -/")
     for name, code in zip(("recordMissingXY", "recordMissingZ"), codes):
         o.append(f"def {name} : Option Nat := " + ("none" if code is None else f"some {RM_CODES.index(code)}  -- {code}"))
+    o.append("")
+    o.append("/-- `revision_observations()`: the statement executed for every `const Direction* d` of a\n"
+             "    `StandPoint`'s `observation_list` (state: `std::set<PointID> targets`, `int active_directions = 0`) -/")
+    o.append(f"def targetsBody : TStmt :=\n  {body_term}")
+    o.append("")
+    o.append("/-- `if (active_directions <op> N)` ⇒ every `Direction` of the set is made passive -/")
+    o.append(f"def standCmp : TCmp := .{stand_cmp}")
+    o.append(f"def standBound : Nat := {stand_bound}")
     o.append("")
     o.append("end Gama.Rev.Gen")
     o.append("")
